@@ -121,6 +121,24 @@ func (m *Mirror) MergeRemote(name, kind string, key []byte, v SVer, txn uint64) 
 	return true
 }
 
+// EnsureDBI: a merge creates the application and shadow DBI of every DBI a snapshot names, even when it
+// then takes no entry from it.
+func (m *Mirror) EnsureDBI(name, kind string) {
+	d := m.dbi(name, kind)
+	d.HasMain = true
+	d.HasShadow = true
+}
+
+// HasShadowEntry reports whether the shadow DBI holds any version (live or marker) of the key.
+func (m *Mirror) HasShadowEntry(name string, key []byte) bool {
+	d := m.DBIs[name]
+	if d == nil {
+		return false
+	}
+	_, ok := d.Shadow[string(key)]
+	return ok
+}
+
 // Project is shadowToMain: main == exactly the live entries of shadow.
 func (m *Mirror) Project() bool {
 	changed := false
